@@ -259,9 +259,11 @@ pub fn pbt(ctx: &Ctx) -> Frag {
         Ok(())
     });
     let mut s = st.into_inner();
-    if res.is_err() {
+    if let Err(e) = &res {
         if let Some(v) = s.failed.take() {
             s.frag.violation(v);
+        } else {
+            s.frag.notes.push(format!("proptest aborted without a recorded violation: {}", e.to_string().chars().take(500).collect::<String>()));
         }
     }
     s.frag.require(&["2..=10 matches (complete call tree)", ">10 matches (state lattice)", "two matches closer than one vector"]);
